@@ -54,11 +54,13 @@ func vInstallSetup(L int, withCR bool) *vInstallCase {
 	return &vInstallCase{r: r, a: a, req: req, conn: c}
 }
 
-//verif:check C19 stubs=env,valuefile,abslog,snapfs reach=success,kept,reset,rejected,end desc="onInstallSnapRequest under the request preconditions CR/LC: term, commit index, applied index, snapshot index never decrease; applied <= commit <= last; first-1 <= snapshot <= last; on success the published label is the request's" bounds="follower log of 2 entries after a symbolic base, 0..1 segment boundary, 2-node configurations; all 64-bit values"
+//verif:check C19,C09,C04,C03 stubs=env,valuefile,abslog,snapfs reach=success,kept,reset,rejected,end desc="onInstallSnapRequest under the request preconditions CR/LC: the log suffix is kept only if the entry at the snapshot index has the snapshot's term, otherwise the log is reset and the FSM restored; term, commit index, applied index, snapshot index never decrease; applied <= commit <= last; first-1 <= snapshot <= last; on success the published label is the request's" bounds="follower log of 2 entries after a symbolic base, 0..1 segment boundary, 2-node configurations; all 64-bit values"
 func VH_C19_install() {
 	c := vInstallSetup(2, true)
 	r, a, req := c.r, c.a, c.req
 	t0, c0, f0, s0 := r.term, r.commitIndex, r.fsm.index, r.snaps.index
+	// did the log hold the snapshot's last entry (same index, same term) before the request?
+	hadMatch := vAnd(vAnd(req.lastIndex > a.prev, req.lastIndex <= a.last()), vTermAt(a, a.base, req.lastIndex) == req.lastTerm)
 	res, _ := r.onInstallSnapRequest(req, c.conn)
 	vDrainFSM(r)
 	for len(r.fsmRestoredCh) > 0 {
@@ -76,12 +78,14 @@ func VH_C19_install() {
 		if a.nReset > 0 {
 			vReach("reset")
 			vAssert(a.prev == req.lastIndex && a.last() == req.lastIndex && r.lastLogTerm == req.lastTerm, "A4-log-reset-to-snapshot")
+			vAssert(vNot(hadMatch), "A4-log-discarded-only-if-no-matching-entry")
 			vAssert(r.commitIndex == req.lastIndex && r.fsm.index == req.lastIndex, "A4-state-restored-from-snapshot")
 			vAssert(r.configs.Latest.Index == req.lastConfig.Index && r.configs.IsCommitted(), "A4-config-from-label")
 		} else {
 			vReach("kept")
 			// suffix kept: only because the entry at the snapshot index matched
 			vAssert(a.last() >= req.lastIndex, "A4-kept-only-if-log-reaches-snapshot")
+			vAssert(hadMatch, "A4-suffix-kept-only-if-entry-at-snapshot-index-has-snapshot-term")
 			// the FSM was not restored, so everything it still has to apply must still be in the log. This holds when
 			// the FSM has reached the snapshot index. When it has not (fsm.index < lastIndex), the arm compacts entries
 			// the FSM still needs - but that combination needs a request no legitimate sender builds: a leader sends a
